@@ -93,4 +93,8 @@ type Plan struct {
 	Schemes      []string     `json:"schemes,omitempty"`
 	Clients      []ClientPlan `json:"clients,omitempty"`
 	Cases        []URLCase    `json:"cases,omitempty"`
+	// Yield (conc arm): pauses (microseconds, cyclic) at the statement
+	// boundaries of the instrumented registry code, never inside its critical
+	// sections (core.Sim.EnableYields, DESIGN 8.9).
+	Yield []int `json:"yield,omitempty"`
 }
